@@ -838,6 +838,13 @@ class Interp:
             raise Unsupported("expression " + type(e).__name__, e)
         return m(e, env)
 
+    def e_Lambda(self, e, env):
+        # a lambda is a small nested function: same closure semantics as `def`
+        fn = ast.FunctionDef(name="<lambda>", args=e.args, body=[ast.Return(value=e.body)], decorator_list=[], returns=None, type_comment=None)
+        ast.copy_location(fn, e)
+        ast.fix_missing_locations(fn)
+        return FuncRef(fn, env)
+
     def e_Constant(self, e, env):
         v = e.value
         if isinstance(v, bool) or v is None or isinstance(v, str):
@@ -1458,6 +1465,20 @@ class Interp:
             return Rat.atom(("len", canon(v)))
         if dotted == "isinstance":
             return self.do_isinstance(args, e, env)
+        if dotted == "sorted" and len(args) == 1 and isinstance(args[0], (PList, tuple)) and set(kwargs) <= {"key", "reverse"} and (
+                "key" in kwargs or all(isinstance(x, str) or (isinstance(x, Rat) and x.is_const()) for x in (args[0].items if isinstance(args[0], PList) else args[0]))):
+            items_ = list(args[0].items if isinstance(args[0], PList) else args[0])
+            return PList(self._sorted_items(items_, kwargs.get("key"), kwargs.get("reverse", False), e))
+        if dotted in ("groupby", "itertools.groupby") and len(args) >= 1 and isinstance(args[0], (PList, tuple)):
+            keyf = kwargs.get("key", args[1] if len(args) > 1 else None)
+            groups = []
+            for x in (args[0].items if isinstance(args[0], PList) else args[0]):
+                k = self._key_of(keyf, x, e)
+                if groups and groups[-1][0] == k:
+                    groups[-1][1].append(x)
+                else:
+                    groups.append((k, [x]))
+            return PList([((k[1] if k[0] == 1 else Rat.const(k[1])), PList(g)) for k, g in groups])
         if dotted == "setattr" and len(args) == 3 and isinstance(args[0], Obj) and isinstance(args[1], str):
             args[0].attrs[args[1]] = args[2]
             return None
@@ -1521,6 +1542,29 @@ class Interp:
             return self.opaque_call(callee.key(), args, kwargs, e)
         raise Unsupported("call of " + canon(callee), e)
 
+    def _key_of(self, keyf, x, node):
+        if keyf is None:
+            k = x
+        elif isinstance(keyf, FuncRef):
+            k = self.call_function(keyf.fn, [x], {}, None, node, closure_env=keyf.env)
+        else:
+            raise Unsupported("sort/group key is not a function of the repository", node)
+        if isinstance(k, Rat) and k.is_const():
+            return (0, k.const_value())
+        if isinstance(k, str):
+            return (1, k)
+        raise Unsupported("sort/group key is not a literal value", node)
+
+    def _sorted_items(self, items, keyf, reverse, node):
+        keyed = [(self._key_of(keyf, x, node), i, x) for i, x in enumerate(items)]
+        keyed.sort(key=lambda t: (t[0], t[1]))
+        out = [x for _, _, x in keyed]
+        if reverse is True:
+            # stable descending order
+            keyed.sort(key=lambda t: t[0], reverse=True)
+            out = [x for _, _, x in keyed]
+        return out
+
     def opaque_call(self, name, args, kwargs, node):
         if not self.opaque_calls:
             raise Unsupported("call to unmodelled function " + name, node)
@@ -1557,6 +1601,8 @@ class Interp:
             return False
         if isinstance(v, str):
             return tn == "str"
+        if isinstance(v, (NArr, NMask)):
+            return tn in ("np.ndarray", "numpy.ndarray", "ndarray")
         if isinstance(v, PList):
             return tn == "list"
         if isinstance(v, PDict):
@@ -1599,6 +1645,9 @@ class Interp:
                 return None
             if name == "copy":
                 return PList(obj.items)
+            if name in ("sort",) and not args and set(kwargs) <= {"key", "reverse"}:
+                obj.items[:] = self._sorted_items(obj.items, kwargs.get("key"), kwargs.get("reverse", False), node)
+                return None
         if isinstance(obj, str):
             if name in ("lower", "upper", "strip", "title"):
                 if not args:
